@@ -390,15 +390,29 @@ Definition dependencies (f : flow) : list aref := dedup_refs [] (extract_refs f)
 
 (* ------------------------------------------------------------------------------------------------ *)
 (* validation done by the flow reader that the theorems rely on (baseRouter.validate:
-   "check each category points to a valid exit") *)
+   "check each category points to a valid exit"; the result_name validator tags) *)
 
 Definition exit_in (e : N) (exits : list exit_) : bool := existsb (fun x => N.eqb (e_id x) e) exits.
 
-Definition valid_node (n : node) : bool :=
-  match n_router n with
-  | Some r => forallb (fun c => exit_in (c_exit c) (n_exits n)) (rt_categories r)
-  | None => true
+(* the `validate:` tags on result names: set_run_result.name and the result_name of call_classifier, open_ticket,
+   transfer_airtime are "required,result_name"; the result_name of call_webhook, call_resthook and of routers
+   is "omitempty,result_name" *)
+Definition opt_result_name (t : text) : bool := text_empty t || valid_result_name t.
+
+Definition valid_action (a : action) : bool :=
+  match a_behav a with
+  | BSetRunResult name _ => valid_result_name name
+  | BSaver s rn => if sv_guarded s then opt_result_name rn else valid_result_name rn
+  | _ => true
   end.
+
+Definition valid_node (n : node) : bool :=
+  forallb valid_action (n_actions n)
+  && match n_router n with
+     | Some r => opt_result_name (rt_result_name r)
+                 && forallb (fun c => exit_in (c_exit c) (n_exits n)) (rt_categories r)
+     | None => true
+     end.
 
 Definition valid_flow (f : flow) : bool := forallb valid_node (f_nodes f).
 
